@@ -246,16 +246,25 @@ int ops_table(char **args, int na)
 		uint8_t *c = NULL; size_t cl = 0; const char *ch = kv(args + 1, na - 1, "content");
 		if (ch && unhex(ch, &c, &cl)) return -1;
 		char path[320], tgt[340]; snprintf(path, sizeof path, "%s/excl.mtbl", vf_tmpdir); snprintf(tgt, sizeof tgt, "%s/excl-target", vf_tmpdir);
-		unlink(path); unlink(tgt);
+		unlink(path); rmdir(path); unlink(tgt);
+		int special = !strcmp(kind, "devnull") || !strcmp(kind, "fifo") || !strcmp(kind, "dir");
+		int rfd = -1;
 		if (!strcmp(kind, "regular")) { FILE *f = fopen(path, "wb"); if (!f) return -1; fwrite(c, 1, cl, f); fclose(f); }
 		else if (!strcmp(kind, "dangling")) { if (symlink(tgt, path)) return -1; }
+		else if (!strcmp(kind, "symlink")) { FILE *f = fopen(tgt, "wb"); if (!f) return -1; fwrite(c, 1, cl, f); fclose(f); if (symlink(tgt, path)) return -1; }
+		else if (!strcmp(kind, "devnull")) { if (symlink("/dev/null", path)) return -1; }
+		else if (!strcmp(kind, "fifo")) { if (mkfifo(path, 0600)) return -1; rfd = open(path, O_RDONLY | O_NONBLOCK); /* a reader, so that an open for writing cannot block */ }
+		else if (!strcmp(kind, "dir")) { if (mkdir(path, 0700)) return -1; }
 		free(c);
 		struct mtbl_writer *w = mtbl_writer_init(path, NULL);
 		if (w) { mtbl_writer_destroy(&w); puts("ok"); }
 		else if (!strcmp(kind, "regular")) { size_t n; uint8_t *f = read_file(path, &n); if (!f) return -1; printf("null "); puthex(stdout, f, n); putchar('\n'); free(f); }
 		else if (!strcmp(kind, "dangling")) { struct stat sb; printf("null %s\n", (lstat(path, &sb) == 0 && S_ISLNK(sb.st_mode) && access(tgt, F_OK) != 0) ? "dangling" : "changed"); }
+		else if (!strcmp(kind, "symlink")) { struct stat sb; size_t n; uint8_t *f = read_file(tgt, &n); if (!f || lstat(path, &sb) || !S_ISLNK(sb.st_mode)) { puts("null changed"); } else { printf("null "); puthex(stdout, f, n); putchar('\n'); } free(f); }
+		else if (special) puts("null special");
 		else puts("null");
-		unlink(path); unlink(tgt);
+		if (rfd >= 0) close(rfd);
+		unlink(path); rmdir(path); unlink(tgt);
 		return 0;
 	}
 	if ((!strcmp(op, "r.openw") || !strcmp(op, "r.openb")) && na >= 3) {
